@@ -264,6 +264,9 @@ class Importance(CellModifierInput):
             raise ValueError("Importance must be ≥ 0.0")
         if self._problem:
             for particle in self._problem.mode:
+                # as in __setitem__: a particle of the mode this cell has no importance for yet
+                if particle not in self._particle_importances:
+                    self._generate_default_cell_tree(particle)
                 self._particle_importances[particle]["data"][0].value = value
 
     def _clear_data(self):
